@@ -226,6 +226,14 @@ type vState struct {
 	Cache   map[string][]vEntry `json:"cache"`
 	Locks   int                 `json:"locks"`
 	StateFile string            `json:"stateFile"`
+	Settings vSettings          `json:"settings"`
+}
+
+// webhook urls, PCAP-over-IP endpoint addresses (in the manager's order) and the Config flag
+type vSettings struct {
+	Hooks []string `json:"hooks"`
+	Eps   []string `json:"eps"`
+	Cfg   bool     `json:"cfg"`
 }
 
 func vBits(bm bitmask.LongBitmask) []int {
@@ -254,6 +262,7 @@ type vScenario struct {
 	afterCrash bool
 	partial   map[string]bool
 	crashes   []*vCrash
+	lost      []int // captures that were only queued when the process was killed (known to the new builder, never imported)
 }
 
 func (s *vScenario) fid(name string) string {
@@ -375,6 +384,10 @@ func (s *vScenario) project() (*vState, error) {
 			probes = append(probes, cacheProbe{n, c})
 		}
 		st.StateFile = filepath.Base(mgr.stateFilename)
+		st.Settings = vSettings{Hooks: append([]string{}, mgr.pcapProcessorWebhookUrls...), Eps: []string{}, Cfg: mgr.config.AutoInsertLimitToQuery}
+		for _, e := range mgr.pcapOverIPEndpoints {
+			st.Settings.Eps = append(st.Settings.Eps, e.Address)
+		}
 	}
 	select {
 	case <-done:
